@@ -23,6 +23,49 @@ pub struct Scen {
     pub sets: Option<Vec<Vec<usize>>>,
     /// every read returns at most this many bytes
     pub uniform: usize,
+    /// Some(k): the cut sets are all subsets of `cands` with at most k elements (enumerated by
+    /// unranking, nothing is materialised)
+    pub upto: Option<usize>,
+}
+
+fn binom(n: u64, k: u64) -> u64 {
+    if k > n {
+        return 0;
+    }
+    let mut r = 1u64;
+    for i in 0..k {
+        r = r * (n - i) / (i + 1);
+    }
+    r
+}
+
+/// the `rank`-th subset (sizes ascending, lexicographic within a size) of {0..n} with <= k elements
+fn unrank_subset(n: u64, k: usize, mut rank: u64) -> Vec<usize> {
+    let mut size = 0u64;
+    while rank >= binom(n, size) {
+        rank -= binom(n, size);
+        size += 1;
+        assert!(size as usize <= k);
+    }
+    let mut out = Vec::with_capacity(size as usize);
+    let mut from = 0u64;
+    let mut left = size;
+    while left > 0 {
+        // choose the smallest element e >= from such that rank falls into the block starting with e
+        let mut e = from;
+        loop {
+            let block = binom(n - e - 1, left - 1);
+            if rank < block {
+                break;
+            }
+            rank -= block;
+            e += 1;
+        }
+        out.push(e as usize);
+        from = e + 1;
+        left -= 1;
+    }
+    out
 }
 
 impl Scen {
@@ -39,15 +82,22 @@ impl Scen {
             cands: Vec::new(),
             sets: None,
             uniform: usize::MAX,
+            upto: None,
         }
     }
     pub fn count(&self) -> u64 {
+        if let Some(k) = self.upto {
+            return (0..=k as u64).map(|j| binom(self.cands.len() as u64, j)).sum();
+        }
         match &self.sets {
             Some(l) => l.len() as u64,
             None => 1u64 << self.cands.len(),
         }
     }
     pub fn cuts(&self, k: u64) -> Vec<usize> {
+        if let Some(m) = self.upto {
+            return unrank_subset(self.cands.len() as u64, m, k).into_iter().map(|i| self.cands[i]).collect();
+        }
         match &self.sets {
             Some(l) => l[k as usize].clone(),
             None => self
@@ -629,8 +679,8 @@ fn kind_walks(depth: usize, max_cuts: usize) -> Vec<Scen> {
         cmds.push(c);
         exp.push(cb);
         let mut sc = Scen::new(format!("H + {:?} + query, every set of <= {} cuts", names, max_cuts), Conv::new(cmds), exp);
-        let all: Vec<usize> = (sc.ends[0] + 1..sc.stream.len()).collect();
-        sc.sets = Some(subsets_upto(&all, max_cuts));
+        sc.cands = (sc.ends[0] + 1..sc.stream.len()).collect();
+        sc.upto = Some(max_cuts);
         v.push(sc);
     }
     v
@@ -666,5 +716,25 @@ pub fn build(quick: bool) -> Check {
             f
         },
         required: vec!["interrupted_reads", "reads_ending_inside_a_header", "reads_spanning_two_messages", "executions_with_more_than_3_reads", "uniform_read_sizes"],
+    }
+}
+
+#[cfg(test)]
+mod tests {
+    use super::*;
+    #[test]
+    fn unranking_enumerates_every_small_subset_once() {
+        for n in 0..9u64 {
+            for k in 0..4usize {
+                let total: u64 = (0..=k as u64).map(|j| binom(n, j)).sum();
+                let mut seen = std::collections::BTreeSet::new();
+                for r in 0..total {
+                    let s = unrank_subset(n, k, r);
+                    assert!(s.len() <= k && s.windows(2).all(|w| w[0] < w[1]) && s.iter().all(|e| (*e as u64) < n));
+                    assert!(seen.insert(s));
+                }
+                assert_eq!(seen.len() as u64, total);
+            }
+        }
     }
 }
